@@ -383,41 +383,33 @@ theorem packMoved_mask (info : CompId → CompInfo) (e : Handle) (initial : Mask
     (hfix : p.final ≠ initial → closedMask w.deps p.final = p.final) :
     HasMask (packMoved info e false initial sh w p).1 e p.final ∧
     SameTable w (packMoved info e false initial sh w p).1 := by
+  have hla : (w.locOf e).arch = some pi := by rw [hloc]
+  by_cases hpf : p.final = initial
+  · rw [packMoved_stay info e initial sh w p pi hla (packTarget_stay e initial sh w p pi hpf.symm hla)]
+    exact ⟨⟨pi, idx, hloc, hpi, by rw [hpf]; exact hinit⟩, SameTable.refl w⟩
+  have hT := packTarget_ne e false initial sh w p (fun h => hpf h.symm)
   obtain ⟨hsame, hlocs, harch, hidx, hlen, hkey⟩ := getArch_frame w p.final sh
   have hloc' : (w.getArch p.final sh).1.locOf e = ⟨some pi, idx⟩ := by
     unfold WM.locOf at hloc ⊢; rw [hlocs]; exact hloc
-  have hstay : HasMask (w.getArch p.final sh).1 e initial :=
-    ⟨pi, idx, hloc', Nat.lt_of_lt_of_le hpi hlen, by rw [harch pi hpi]; exact hinit⟩
   unfold packMoved
-  simp only [Bool.false_eq_true, if_false, hloc']
+  simp only [Bool.false_eq_true, if_false, hT, hloc']
   rcases getArch_move_mask info w e pi idx p.final sh (Mask.ofList (p.src.map (·.1))) hn hloc hpi with
     ⟨_, h2, h3, h4⟩ | ⟨r, h1, h3, h4, _, h6⟩
   · -- `getArchetype` returned the entity's own archetype
-    have hcl : closedMask w.deps p.final = initial := by
-      rw [← hkey, h2, harch pi hpi]; exact hinit
-    have hfin : closedMask w.deps p.final = p.final := by
-      by_cases hpf : p.final = initial
-      · rw [hcl, hpf]
-      · exact hfix hpf
+    have hfin : closedMask w.deps p.final = p.final := hfix hpf
     have hcond : (decide (pi = (w.getArch p.final sh).2) || initial == p.final) = true := by
       simp [h2]
     rw [if_pos hcond]
     rw [hfin] at h3
     exact ⟨h3, h4⟩
-  · by_cases hpf : p.final = initial
-    · have hcond : (decide (pi = (w.getArch p.final sh).2) || initial == p.final) = true := by
-        simp [hpf]
-      rw [if_pos hcond]
-      rw [← hpf] at hstay
-      exact ⟨hstay, hsame⟩
-    · have hcond : ¬ (decide (pi = (w.getArch p.final sh).2) || initial == p.final) = true := by
-        have : ¬ pi = (w.getArch p.final sh).2 := fun h => h6 h.symm
-        have h' : ¬ initial = p.final := fun h => hpf h.symm
-        simp [this, h']
-      rw [if_neg hcond]
-      simp only [h1]
-      rw [hfix hpf] at h3
-      exact ⟨h3, h4⟩
+  · have hcond : ¬ (decide (pi = (w.getArch p.final sh).2) || initial == p.final) = true := by
+      have : ¬ pi = (w.getArch p.final sh).2 := fun h => h6 h.symm
+      have h' : ¬ initial = p.final := fun h => hpf h.symm
+      simp [this, h']
+    rw [if_neg hcond]
+    simp only [h1]
+    rw [hfix hpf] at h3
+    exact ⟨h3, h4⟩
 
 /-- `packFinish` on an existing entity whose pack is alive -/
 theorem packFinish_mask (info : CompId → CompInfo) (e : Handle) (initial : Mask) (sh : Shared) (w : WM)
@@ -431,8 +423,8 @@ theorem packFinish_mask (info : CompId → CompInfo) (e : Handle) (initial : Mas
   obtain ⟨hm, hs⟩ := packMoved_mask info e initial sh w p pi idx hn hloc hpi hinit hfix
   have hl := packLoops_rel ValFrame ValFrame.refl (fun _ _ _ h₁ h₂ => h₁.trans h₂)
     (fun ti idx a c v => packSetVal_valFrame ti idx a c v) info e false initial sh w p
-  have hv := hl.1.trans (hl.2 ((packW2 info e false initial sh w p).arch (w.getArch p.final sh).2).mask
-    (w.getArch p.final sh).2 ((packMoved info e false initial sh w p).1.locOf e).idx)
+  have hv := hl.1.trans (hl.2 ((packW2 info e false initial sh w p).arch (packTarget e false initial sh w p).2).mask
+    (packTarget e false initial sh w p).2 ((packMoved info e false initial sh w p).1.locOf e).idx)
   exact ⟨hv.hasMask hm, hs.trans hv.1.same⟩
 
 theorem isCreateCmd_of_plain {c : Cmd} (h : plainCmd c = true) : isCreateCmd c = false := by
